@@ -247,6 +247,37 @@ def nontrivial(c, o):
     return False
 
 
+def run_chunked(binary, cases, chunk_timeout):
+    """the harness in chunks of 150 cases, each chunk its own process with a bound: a case on which the real code (or a harness wait
+    that relies on it) never returns is found by running the chunk's cases one by one, reported with that case as the failing input,
+    and the rest of the run goes on"""
+    outs = []
+    for a in range(0, len(cases), 150):
+        chunk = cases[a:a + 150]
+        try:
+            outs += vlib.run_harness(binary, chunk, timeout=chunk_timeout)
+            continue
+        except vlib.Broken as b:
+            if "timed out" not in str(b):
+                raise
+        found = False
+        for c in chunk:
+            if found:
+                outs.append({"prop_ok": True, "prop_key": "harness", "prop_msg": "skipped: an earlier case of this chunk did not terminate"})
+                continue
+            try:
+                outs += vlib.run_harness(binary, [c], timeout=40)
+            except vlib.Broken as b:
+                if "timed out" not in str(b):
+                    raise
+                found = True
+                outs.append({"prop_ok": False, "prop_key": "harness", "sched": [], "admitted": [],
+                             "prop_msg": "the case did not terminate within 40 s (the real code, or a wait that relies on its limit being enforced, never returns)"})
+        if not found:
+            raise vlib.Broken("harness chunk timed out after %ss but every case of it terminates alone" % chunk_timeout, "")
+    return outs
+
+
 def run(ctx, only_cases=None):
     thorough = ctx.tier == "thorough"
     binary = vlib.build_harness("C17")
@@ -290,7 +321,7 @@ def run(ctx, only_cases=None):
     for c in cases:
         if c["mode"] == "mapseq":
             c["pre"] = 1 if variants["mapping"] == 0 else 0     # tells the harness whether the counter covers live tunnels at all
-    outs = vlib.run_harness(binary, cases, timeout=1500)
+    outs = run_chunked(binary, cases, 300 if not thorough else 1500)
 
     nfail, fail_keys = 0, {}
     for c, o in zip(cases, outs):
